@@ -199,7 +199,11 @@ def generate():
     tail = [ast.unparse(s) for s in found[idx + 2:]]
     want_tail = ['importedSheet._href = fullhref',
                  'importedSheet._setFetcher(self.parentStyleSheet._fetcher)',
-                 'importedSheet._setCssTextWithEncodingOverride(cssText, encodingOverride=encodingOverride, encoding=encoding)']
+                 # the hand-over itself, with the error mode switched to logging around it and put back
+                 'raising = self._log.raiseExceptions',
+                 'self._log.raiseExceptions = False',
+                 'try:\n    importedSheet._setCssTextWithEncodingOverride(cssText, encodingOverride=encodingOverride, encoding=encoding)\n'
+                 'finally:\n    self._log.raiseExceptions = raising']
     if tail != want_tail:
         raise Untranslatable('_setHref: tail changed: %r' % tail)
     hand = _stmts(found[idx:idx + 2], '(encodingOverride, encoding)', 1, enctype_is_option=False)
